@@ -310,8 +310,10 @@ class Rename:
             return {"form": form, "spec": {draw(st.integers(0, len(hdr) - 1)): "R"}}
         if form == "nonstrict":
             return {"form": form, "spec": {"nosuchfield": "R", draw(st.sampled_from(hdr)): "S"}}
-        keys = draw(st.lists(st.one_of(st.sampled_from(hdr), st.integers(0, len(hdr) - 1)), min_size=1, max_size=2, unique=True))
-        return {"form": form, "spec": dict((k, "R%d" % i) for i, k in enumerate(keys))}
+        keys = draw(st.lists(st.one_of(st.sampled_from(hdr), st.integers(0, len(hdr) - 1)), min_size=1, max_size=3, unique=True))
+        # new names may be existing field names: swaps and chains must be applied in ONE pass over the old header
+        newnames = st.one_of(st.sampled_from(list(hdr)), st.sampled_from(["R0", "R1"]))
+        return {"form": form, "spec": dict((k, draw(newnames)) for k in keys)}
 
     @staticmethod
     def run(t, a):
